@@ -7,6 +7,7 @@ import SC.Proofs.RIndexAny6
 import SC.Proofs.RByteLevel
 import SC.Proofs.RTrim
 import SC.Proofs.RSuffix
+import SC.Proofs.SrcStatic
 /-!
 # C06 — total and memory-safe on arbitrary bytes
 
@@ -145,4 +146,10 @@ theorem byte_searches_total (cfg : A.Cfg) (s : Bytes) (c : UInt8) :
   ⟨A.IndexByte_eq cfg s c, A.LastIndexByte_eq cfg s c, A.IndexByteASCII_eq cfg s c⟩
 
 example : A.Count {} [0xFF, 0xFF] [0xFF, 0xFF] = 1 ∧ A.Count {pkg := .byt} [0xFF, 0xFF] [0xFF, 0xFF] = 1 := by decide +kernel
+/-- source level: every instruction of the regenerated go/ssa programs of both packages lies inside the subset the interpreter
+    `GoSsa.run` gives a bounds-checked meaning to (indexing and slicing outside the operand are `Res.panic`, running out of fuel is
+    `Res.nofuel`), every register and jump target is in range, and every call resolves.  The correspondence run executes these programs
+    on every generated op (driver column G): a panic or hang of the source program is rendered `PANIC` / `HANG` there. -/
+theorem source_in_subset : GoSsa.Prog.sound Gen.Src.str = true ∧ GoSsa.Prog.sound Gen.Src.byt = true :=
+  ⟨GoSsa.str_sound, GoSsa.byt_sound⟩
 end C06
